@@ -93,6 +93,17 @@ MAPKEYS = ["i", "str", "i64", "f64", "T(i8,i32)", "P(i)", "E", "A(2,i16)", "I", 
            "A(33,i32)", "A(17,str)", "T()", "A(0,i)", "u8", "T(str,i8)", "up", "A(129,u8)", "A(128,u8)", "C(i)", "usp"]
 
 
+# key / element types whose size is exactly 127, 128 or 129 bytes on 64-bit and/or 32-bit targets (arrays and structs),
+# plus their neighbours; all comparable, so each can be a key
+BOUNDARY = ["A(127,u8)", "A(128,u8)", "A(129,u8)", "A(16,i64)", "A(17,i64)", "A(16,f64)", "A(8,c128)", "A(16,c64)", "A(32,i32)", "A(33,i32)",
+            "A(64,u16)", "A(8,str)", "A(16,str)", "A(17,str)", "A(8,E)", "A(16,I)", "A(16,P(i))", "A(32,P(i))", "A(33,usp)", "A(16,i)", "A(32,u)",
+            "T(A(127,u8))", "T(A(120,u8),i64)", "T(A(121,u8),i64)", "T(A(128,u8),u8)", "T(A(63,u16),u8)", "T(A(31,i32),u16,u8)",
+            "T(A(15,i64),i32,i16,u8)", "T(A(15,i64),i32,i16,u8,u8)", "T(A(15,i64),A(9,u8))", "T(str,A(14,i64))", "T(A(31,u32),f32)",
+            "N(A(16,i64))", "T(T(A(64,u8)),T(A(64,u8)))", "T(T(A(64,u8)),T(A(64,u8)),b)", "T(A(127,u8),T())", "T(A(128,u8),T())"]
+BOUNDARY_ELEM_ONLY = ["A(8,F)", "A(16,F)", "A(9,F)", "A(5,S(i8))", "A(10,S(i8))", "A(11,S(i8))", "T(A(15,i64),F)", "T(A(14,i64),F)", "A(16,M(i,i))"]
+SMALL = ["i", "u8", "str", "i64", "T(i8,i64)", "E"]
+
+
 def gen(rng, d):
     r = rng.random()
     if d <= 0 or r < 0.33:
@@ -189,8 +200,9 @@ def nat32(t):
     return ((off + al - 1) // al * al, al)
 
 
-def repair_nested_tail(t):
-    """make the tail padding of nested structs explicit (a trailing [k]uint8 field)"""
+def repair_nested_tail(t, top=False):
+    """make the tail padding of nested structs explicit (a trailing [k]uint8 field); `top`: also of t itself (a map
+    key/element is an array element of the bucket)"""
     def pad(x):
         if x[0] == "N":
             return ("N", pad(x[1]))
@@ -212,7 +224,8 @@ def repair_nested_tail(t):
         if x[0] == "A":
             return ("A", x[1], pad(x[2]))
         return x
-    return map_term(t, f)
+    r = map_term(t, f)
+    return pad(r) if top else r
 
 
 REPAIRS = [   # (cause, targets it can explain, rewrite)
@@ -224,11 +237,15 @@ REPAIRS = [   # (cause, targets it can explain, rewrite)
 
 
 # ------------------------------------------------------------------------------------------------ real / model plumbing
+MD_RE = re.compile(r"^md=(\d+),(\d+),(\d+),(\d+) kb=(\d+),(\d+) eb=(\d+),(\d+) ")
 LINE_RE = re.compile(r"^(?:ks=(\d+) es=(\d+) bs=(\d+) )?a=(\d+),(\d+),(\S+) b=(\d+),(\d+),(\S+) c=(\d+),(\d+),(\d+),(?:(\d+),)?(\S+) e=(\d+),(\d+)$")
 
 
 def decode(line, real):
     """-> dict or None"""
+    md = MD_RE.match(line)
+    if md:
+        line = line[md.end():]
     m = LINE_RE.match(line)
     if not m:
         return None
@@ -237,7 +254,47 @@ def decode(line, real):
          "cfa": int(g[11]), "ptrbytes": g[12], "e": (int(g[14]), int(g[15]))}
     if g[0] is not None:
         d["map"] = (int(g[0]), int(g[1]), int(g[2]))
+    if md:
+        x = [int(v) for v in md.groups()]
+        d["md"] = {"KeySize": x[0], "ValueSize": x[1], "BucketSize": x[2], "IndirectKey": bool(x[3] & 1), "IndirectElem": bool(x[3] & 2),
+                   "key": (x[4], x[5]), "elem": (x[6], x[7])}
     return d
+
+
+MAXSLOT = 128     # runtime/abi MapMaxKeyBytes = MapMaxElemBytes
+
+
+def map_spec(d, ptr, pal):
+    """Independent judgement of an EMITTED map descriptor (no model, no llgo code): with key/elem sizes and alignments
+    as generated code uses them, a slot is the value itself if it is at most 128 bytes, else a pointer; the flags and
+    KeySize/ValueSize must say so; BucketSize must be the size of
+        struct { tophash [8]uint8; keys [8]slotK; elems [8]slotV; overflow pointer }
+    and the runtime's addressing (keys at 8, elems at 8+8*KeySize, overflow in the last word) must hit these offsets.
+    -> list of (what, got, want)"""
+    md = d["md"]
+    bad = []
+    (kz, ka), (vz, va) = md["key"], md["elem"]
+    ik, iv = kz > MAXSLOT, vz > MAXSLOT
+    if md["IndirectKey"] != ik:
+        bad.append(("IndirectKey", md["IndirectKey"], ik))
+    if md["IndirectElem"] != iv:
+        bad.append(("IndirectElem", md["IndirectElem"], iv))
+    ks, kal = (ptr, pal) if ik else (kz, ka)
+    vs, val = (ptr, pal) if iv else (vz, va)
+    if md["KeySize"] != ks:
+        bad.append(("KeySize", md["KeySize"], ks))
+    if md["ValueSize"] != vs:
+        bad.append(("ValueSize", md["ValueSize"], vs))
+    up = lambda x, a: (x + a - 1) // a * a
+    ko = up(8, kal)
+    vo = up(ko + 8 * ks, val)
+    oo = up(vo + 8 * vs, pal)
+    size = up(oo + ptr, max(1, kal, val, pal))
+    if md["BucketSize"] != size:
+        bad.append(("BucketSize", md["BucketSize"], size))
+    if (ko, vo, oo) != (8, 8 + 8 * ks, size - ptr):
+        bad.append(("runtime addressing (keys, elems, overflow)", (8, 8 + 8 * ks, size - ptr), (ko, vo, oo)))
+    return bad
 
 
 def strip_ptrbytes(line):
@@ -368,6 +425,10 @@ def go_type(t):
     return "struct { " + "; ".join("F%d %s" % (i, go_type(f)) for i, f in enumerate(t[1])) + " }"
 
 
+MAPSLOT_PROBES = [("e128", "int", "[16]int64"), ("e127", "int", "[127]byte"), ("e129", "int", "[129]byte"), ("e128b", "int", "[128]byte"),
+                  ("k128", "[16]int64", "int"), ("k127", "[127]byte", "int"), ("k129", "[129]byte", "int"), ("k128e128", "[128]byte", "[16]int64")]
+
+
 def e2e_program(terms):
     """one program: per struct type Ti a line  `i a=<Sizeof>,<Alignof>,<Offsetof…> b=<stride>,<addr&mask>,<ptr diffs…> c=<desc size>,<align>,<fieldalign>,<offsets…>`"""
     L = ["package main", "", 'import "unsafe"', "",
@@ -405,6 +466,27 @@ def e2e_program(terms):
             L.append("\tfor _, f := range st.Fields { print(\",\", f.Offset) }")
         L.append('\tprintln()')
         L.append("}")
+    # maps whose key / element is exactly 127, 128, 129 bytes: insert 100 entries, read every byte back
+    L.append("// bucket slots at the inline/indirect boundary (MapMaxKeyBytes = MapMaxElemBytes = 128)")
+    for name, kt, vt in MAPSLOT_PROBES:
+        L.append("func mapslot_%s() {" % name)
+        L.append("\tm := map[%s]%s{}" % (kt, vt))
+        L.append("\tfor i := 0; i < 100; i++ {")
+        L.append("\t\tvar k %s; var v %s" % (kt, vt))
+        L.append("\t\t%s" % ("k = i" if kt == "int" else "for j := range k { k[j] = %s(i + j) }" % ("int64" if "int64" in kt else "byte")))
+        L.append("\t\t%s" % ("v = i * 7" if vt == "int" else "for j := range v { v[j] = %s(i*3 + j) }" % ("int64" if "int64" in vt else "byte")))
+        L.append("\t\tm[k] = v")
+        L.append("\t}")
+        L.append("\tbad := 0")
+        L.append("\tfor i := 0; i < 100; i++ {")
+        L.append("\t\tvar k %s" % kt)
+        L.append("\t\t%s" % ("k = i" if kt == "int" else "for j := range k { k[j] = %s(i + j) }" % ("int64" if "int64" in kt else "byte")))
+        L.append("\t\tv, ok := m[k]")
+        L.append("\t\tif !ok { bad++; continue }")
+        L.append("\t\t%s" % ("if v != i*7 { bad++ }" if vt == "int" else "for j := range v { if v[j] != %s(i*3+j) { bad++; break } }" % ("int64" if "int64" in vt else "byte")))
+        L.append("\t}")
+        L.append('\tprintln("mapslot", "%s", len(m), bad)' % name)
+        L.append("}")
     L += ["// consequences of the element descriptor's size (runtime copies/clears t.Elem.Size_ bytes)",
           "func clearfunc() {",
           "\ts := make([]func() int, 4)",
@@ -425,6 +507,7 @@ def e2e_program(terms):
     L.append("func main() {")
     for i in range(len(terms)):
         L.append("\tf%d()" % i)
+    L += ["\tmapslot_%s()" % name for name, _, _ in MAPSLOT_PROBES]
     L += ["\tclearfunc()", "\tmapfunc(8)", "\tmapfunc(9)"]
     L.append("}")
     return "\n".join(L) + "\n"
@@ -445,7 +528,7 @@ def run_e2e(ctx, terms, model_lines):
         m = re.match(r"^(\d+) a=(\S+) b=(\S+) c=(\S+)$", l)
         if m:
             res[int(m.group(1))] = (m.group(2), m.group(3), m.group(4))
-    probes = [tuple(l.split()) for l in (out + err).split("\n") if l.startswith("clearfunc ") or l.startswith("mapfunc ")]
+    probes = [tuple(l.split()) for l in (out + err).split("\n") if l.startswith("clearfunc ") or l.startswith("mapfunc ") or l.startswith("mapslot ")]
     return res, rc, (out + err)[-1500:], probes
 
 
@@ -553,9 +636,11 @@ def run(ctx, args):
     dls = real(["dl " + rt for rt, _ in TARGETS])
     mts = model(["tg " + mt for _, mt in TARGETS])
     target_mismatch = []
+    PTR = {}                                # target -> (pointer size, pointer ABI alignment) of the real data layout
     MT = {mt: mt for _, mt in TARGETS}      # how the model is asked about a target: by name, or `custom:` + measured record
     for (rt, mt), dl, mrec in zip(TARGETS, dls, mts):
         ptr, ab = parse_datalayout(dl)
+        PTR[mt] = (ptr, ab["p"])
         rec = dict(kv.split("=") for kv in mrec.split())
         exp_std = overrides.get(mt)
         want = {"ptr": str(ptr), "i8": str(ab["i8"]), "i16": str(ab["i16"]), "i32": str(ab["i32"]), "i64": str(ab["i64"]),
@@ -598,6 +683,16 @@ def run(ctx, args):
             for sub in layout_subterms(t, []):
                 add(sub)
     maps = []
+    # systematic: every boundary type as key with small and boundary elements, every boundary type as element
+    for kb_ in BOUNDARY:
+        for v_ in SMALL[:3] + [kb_]:
+            maps.append((parse(kb_), parse(v_)))
+    for vb_ in BOUNDARY + BOUNDARY_ELEM_ONLY:
+        for k_ in SMALL:
+            maps.append((parse(k_), parse(vb_)))
+    for kb_ in (BOUNDARY if not quick else rng.sample(BOUNDARY, 8)):
+        for vb_ in (BOUNDARY + BOUNDARY_ELEM_ONLY if not quick else rng.sample(BOUNDARY + BOUNDARY_ELEM_ONLY, 6)):
+            maps.append((parse(kb_), parse(vb_)))
     for _ in range(n_maps):
         k = parse(rng.choice(MAPKEYS))
         v = gen(rng, rng.choice([0, 1, 2, 3])) if rng.random() < 0.8 else parse(rng.choice(MAPKEYS))
@@ -619,6 +714,32 @@ def run(ctx, args):
     # ---- 2. correspondence real vs model (PtrBytes is not modelled)
     mism = [(lr[i], ro[i], mo[i]) for i in range(len(lr)) if strip_ptrbytes(ro[i]) != mo[i]]
 
+    def judge(d, mt):
+        """the specification on one decoded answer of the real code"""
+        ok = agrees(d)
+        if "map" in d:      # the bucket struct: descriptor size against the LLVM size
+            ok = ok and d["map"][2] == d["b"][0]
+        if "md" in d:       # the emitted map descriptor against the independent bucket specification
+            ok = ok and not map_spec(d, *PTR[mt]) and d["md"]["BucketSize"] == d["b"][0]
+        return ok
+
+    def req(mt, t):
+        """request line for a term or, for a map type ('M', k, v), for its descriptor"""
+        if t[0] == "MB":
+            return "mb %s %s %s" % (rt_of[mt], show(t[1]), show(t[2]))
+        return "q %s %s" % (rt_of[mt], show(t))
+
+    def rewrite(rw, t):
+        if t[0] != "MB":
+            return rw(t)
+        if rw is repair_nested_tail:
+            return ("MB", rw(t[1], True), rw(t[2], True))
+        return ("MB", rw(t[1]), rw(t[2]))
+
+    def shown(t):
+        return "M(%s,%s)" % (show(t[1]), show(t[2])) if t[0] == "MB" else show(t)
+
+    rt_of = {mt: rt for rt, mt in TARGETS}
     # ---- 3. specification on the real numbers: (a) = (b) = (c); disagreements are attributed to a cause by repairing
     #         the cause in the term and asking the real code again
     stats = {"q": len(terms) * len(TARGETS), "mb": len(maps) * len(TARGETS), "agree": 0, "disagree": 0}
@@ -632,9 +753,7 @@ def run(ctx, args):
         if d is None:
             undecodable.append((lr[i], line))
             continue
-        ok = agrees(d)
-        if "map" in d:      # KeySize/ValueSize/BucketSize of the map descriptor against the LLVM sizes
-            ok = ok and d["map"][2] == d["b"][0]
+        ok = judge(d, mt)
         if ok:
             stats["agree"] += 1
         else:
@@ -644,9 +763,7 @@ def run(ctx, args):
     if undecodable:
         ctx.log("harness lines that are not layouts: %d, e.g. %s" % (len(undecodable), undecodable[0]))
 
-    rt_of = {mt: rt for rt, mt in TARGETS}
     spec_fail_keys = {}
-    # bucket structs are ordinary struct terms for the purpose of cause attribution
     pending = []
     for (i, mt, d) in failing:
         if meta[i][2] is None and meta[i][1][0] in ("F", "F1") and d["a"] == d["b"] == d["c"] and d["e"][1] == d["b"][1]:
@@ -658,23 +775,22 @@ def run(ctx, args):
         if meta[i][2] is None:
             pending.append({"i": i, "mt": mt, "t": meta[i][1], "causes": [], "done": False})
         else:
-            # re-express the bucket as a struct term (indirect key/elem when larger than 128 bytes are pointers: same repairs apply)
-            k, v = meta[i][1], meta[i][2]
-            pending.append({"i": i, "mt": mt, "t": ("T", [("A", 8, ("u8",)), ("A", 8, k), ("A", 8, v), ("usp",)]), "causes": [], "done": False})
+            # a map type: the repairs are applied to key and element, the repaired map's descriptor is judged again
+            pending.append({"i": i, "mt": mt, "t": ("MB", meta[i][1], meta[i][2]), "causes": [], "done": False})
     unexplained = []
     # stage 1: does a single repair explain the disagreement?  (keeps the attribution specific)
     singles = []
     for p in pending:
         for cause, tgts, rw in REPAIRS:
             if p["mt"] in tgts:
-                t2 = rw(p["t"])
-                if show(t2) != show(p["t"]):
+                t2 = rewrite(rw, p["t"])
+                if shown(t2) != shown(p["t"]):
                     singles.append((p, cause, t2))
     if singles:
-        out = real(["q %s %s" % (rt_of[p["mt"]], show(t2)) for p, cause, t2 in singles])
+        out = real([req(p["mt"], t2) for p, cause, t2 in singles])
         for (p, cause, t2), line in zip(singles, out):
             d2 = decode(line, True)
-            if not p["done"] and d2 is not None and agrees(d2):
+            if not p["done"] and d2 is not None and judge(d2, p["mt"]):
                 p["done"] = True
                 p["causes"] = [cause]
     # stage 2: several causes at once — apply the repairs cumulatively
@@ -682,17 +798,17 @@ def run(ctx, args):
         batch = []
         for p in pending:
             if p["mt"] in tgts and not p["done"]:
-                t2 = rw(p["t"])
-                if show(t2) != show(p["t"]):
+                t2 = rewrite(rw, p["t"])
+                if shown(t2) != shown(p["t"]):
                     batch.append((p, t2))
         if not batch:
             continue
-        out = real(["q %s %s" % (rt_of[p["mt"]], show(t2)) for p, t2 in batch])
+        out = real([req(p["mt"], t2) for p, t2 in batch])
         for (p, t2), line in zip(batch, out):
             d2 = decode(line, True)
             p["t"] = t2
             p["causes"].append(cause)
-            if d2 is not None and agrees(d2):
+            if d2 is not None and judge(d2, p["mt"]):
                 p["done"] = True
     for p in pending:
         i, mt = p["i"], p["mt"]
@@ -703,9 +819,24 @@ def run(ctx, args):
                 ctx.report(key, "size/alignment/offsets of the three computations differ", {"line": lr[i], "real": ro[i]})
         else:
             unexplained.append((lr[i], ro[i], p["causes"]))
-    for (line, r, tried) in unexplained[:20]:
-        ctx.report("layout:unexplained:" + line, "the three computations disagree and no known cause explains it",
-                   {"line": line, "real": r, "repairs_tried": tried})
+    n_un = n_mb = 0
+    for (line, r, tried) in sorted(unexplained, key=lambda u: (len(u[0]), u[0])):      # simplest inputs first
+        f = line.split()
+        if f[0] == "mb":
+            n_mb += 1
+            if n_mb > 25:
+                continue
+            # a map descriptor that no known cause explains: always reported, with the map type as replay
+            mt_ = [m for rt_, m in TARGETS if rt_ == f[1]][0]
+            d_ = decode(r, True)
+            ctx.report("layout:%s:map-bucket:M(%s,%s)" % (mt_, f[2], f[3]),
+                       "the emitted map descriptor does not describe a bucket of 8 tophash bytes + 8 key slots + 8 element slots + overflow pointer",
+                       {"map": "map[%s]%s" % (go_type(parse(f[2])), go_type(parse(f[3]))), "request": line, "real": r,
+                        "violated (what, got, want)": map_spec(d_, *PTR[mt_]) if d_ and "md" in d_ else None, "repairs_tried": tried})
+        elif n_un < 20:
+            n_un += 1
+            ctx.report("layout:unexplained:" + line, "the three computations disagree and no known cause explains it",
+                       {"line": line, "real": r, "repairs_tried": tried})
 
     ctx.log("cause attribution done: %s, unexplained %d" % (spec_fail_keys, len(unexplained)))
     # ---- 4. C-compatible types on amd64: gcc is the reference for the real numbers and for the model's cLayout
@@ -759,6 +890,19 @@ def run(ctx, args):
         res, rc, tail, probes = run_e2e(ctx, pick, mlines)
         e2e_stats["probes"] = [" ".join(p) for p in probes]
         want_probes = {("clearfunc",), ("mapfunc", "8"), ("mapfunc", "9")}
+        slots_seen = set()
+        for pr_ in [x for x in probes if x[0] == "mapslot"]:
+            slots_seen.add(pr_[1])
+            if pr_[2:] != ("100", "0"):
+                kt_, vt_ = [(k_, v_) for n_, k_, v_ in MAPSLOT_PROBES if n_ == pr_[1]][0]
+                ctx.report("layout:amd64:map-bucket:e2e:map[%s]%s" % (kt_, vt_), "compiled program: a map with 100 entries does not give the stored values back",
+                           {"map": "map[%s]%s" % (kt_, vt_), "probe": " ".join(pr_), "meaning": "mapslot <name> <len, want 100> <entries read back wrong, want 0>"})
+        for n_, kt_, vt_ in MAPSLOT_PROBES:
+            if n_ not in slots_seen:
+                ctx.report("layout:amd64:map-bucket:e2e:map[%s]%s" % (kt_, vt_), "compiled program died in or before the map probe (100 inserts, read back)",
+                           {"map": "map[%s]%s" % (kt_, vt_), "rc": rc, "tail": tail[-600:]})
+                break
+        probes = [x for x in probes if x[0] != "mapslot"]
         for pr_ in probes:
             want_probes.discard(pr_[:1] if pr_[0] == "clearfunc" else pr_[:2])
             if pr_[-1] != pr_[-2]:
@@ -856,6 +1000,7 @@ def run(ctx, args):
                                                       "c_compatible_vs_gcc": len(cterms), "e2e_amd64": e2e_stats,
                                                       "causes_of_disagreement": spec_fail_keys, "unexplained": len(unexplained)},
                                "spec_failures_on_real_code": stats["disagree"], "correspondence_mismatches": len(mism),
+                               "map_descriptor_spec": "independent (checks/c08.py map_spec): flags, KeySize/ValueSize, BucketSize and the runtime's slot addressing recomputed from key/elem size+alignment in generated code; boundary types of 127/128/129 bytes generated systematically; unexplained map descriptors %d" % n_mb,
                                "sizes_overrides": {k: list(v) for k, v in overrides.items()}})
 
 
